@@ -122,6 +122,7 @@ func H10ConstVar() {
 	b := make([]KeyBuilderStage, n)
 	ctx := &zzCtx{vals: make([]string, n), key: "v"}
 	anyConst := false
+	var consts []int
 	for i := 0; i < n; i++ {
 		v := zzValue()
 		ctx.vals[i] = v
@@ -133,6 +134,7 @@ func H10ConstVar() {
 		if zz.Choice(2) == 0 {
 			a[i] = zzLit(v)
 			anyConst = true
+			consts = append(consts, i)
 		} else {
 			a[i] = zzVar(i)
 		}
@@ -140,6 +142,14 @@ func H10ConstVar() {
 	zz.Assume(anyConst)
 	sa, ea := f(a)
 	sb, eb := f(b)
+	if ea == nil && eb != nil && len(consts) > 1 {
+		// the helper insists on a constant somewhere (e.g. the size of {bucketrange}): the all-variable
+		// form does not exist, so compare with the form in which exactly one of a's constants is read from the match
+		k := consts[zz.Choice(len(consts))]
+		copy(b, a)
+		b[k] = zzVar(k)
+		sb, eb = f(b)
+	}
 	if ea == nil && eb == nil && sa != nil && sb != nil {
 		ra, rb := sa(ctx), sb(ctx)
 		zz.Assert(ra == rb, "a constant argument gives a different result than the same value read from the match")
